@@ -402,3 +402,26 @@ package segment
 //@      && LE64(result0.rf.data, 8) == info.BaseIndex && LE64(result0.rf.data, 16) == info.ID && LE64(result0.rf.data, 24) == info.Codec
 //@   ensures[C11.filer-open-holds-one] result1 == nil ==> g_open == old(g_open) + 1
 //@   ensures[C11.filer-open-releases] result1 != nil ==> g_open == old(g_open)
+
+//@ func createFile
+//@   inline
+//@ func recoverFile
+//@   inline
+
+//@ func (*Filer).Create
+//@   props C03 C09 C13
+//@   requires f.vfs != nil && info.BaseIndex <= 0x7fffffff00000000
+//@   assigns g_open
+//@   ensures[C13.create-base-nonzero] info.BaseIndex == 0 ==> result1 != nil
+//@   ensures[C11.create-releases] result1 != nil ==> g_open == old(g_open)
+//@   ensures[C03.create-appendable] result1 == nil ==> result0 != nil && WInv(result0) && result0.writer.indexStart == 0 && result0.commitIdx == 0 && len(av(result0.offsets)) == 0
+//@   ensures[C09.create-header-pending] result1 == nil ==> result0.writer.writeOffset == 0 && len(result0.writer.commitBuf) == 32 && LE64(result0.writer.commitBuf, 8) == info.BaseIndex && LE64(result0.writer.commitBuf, 16) == info.ID && LE64(result0.writer.commitBuf, 24) == info.Codec
+
+//@ func (*Filer).RecoverTail
+//@   props C02 C03
+//@   requires f.vfs != nil && info.BaseIndex >= 1 && info.BaseIndex <= 0x7fffffff00000000
+//@   assigns g_open, g_scanLast, g_scanSize
+//@   ensures[C03.recovered-appendable] result1 == nil ==> result0 != nil && WInv(result0)
+//@   ensures[C11.recovertail-releases] result1 != nil ==> g_open == old(g_open)
+//@   ensures[C11.recovertail-holds-one] result1 == nil ==> g_open == old(g_open) + 1
+//@   ensures[C03.recovered-seal-consistent] result1 == nil && result0.writer.indexStart > 0 ==> result0.writer.indexStart < uint64(result0.writer.writeOffset)
